@@ -53,8 +53,11 @@ MANIFEST = {
             "used by both models, theorem trivial there, correspondence runs both implementations against it): "
             "register_runner_heartbeats / get_active_runners, broker route / retrieve / peek / count / purge (FIFO refinement is C08's "
             "theorem), state backend set/get result, exception, workflow data, history, stored invocations, runner contexts, purge. "
-            "IMPLEMENTATION-VS-IMPLEMENTATION ONLY (no model, strict): record_atomic_service_execution. NOT COVERED: trigger store, "
-            "client data store, app-info registry, workflow-run registry, time-range iterators, negative limits / offsets. "
+            "Also in the shared-shape part: iter_history_in_timerange / iter_invocations_in_timerange (batch sizes 1..3, equal "
+            "timestamps inside one operation via the harness' history clock; batches must be full, ordered, nothing missing or "
+            "duplicated; the flattened content is compared with the model). IMPLEMENTATION-VS-IMPLEMENTATION ONLY (no model, "
+            "strict): record_atomic_service_execution, get_invocation_ids_by_workflow. NOT COVERED: trigger store, client data "
+            "store, app-info registry, workflow-run registry, negative limits / offsets. "
             "No translator: the tie is the differential correspondence (every run executes the current source of both backends "
             "against both models; the witnesses of the seven repaired divergences run as regression cases). Trusted: SQLite engine; "
             "harness connection cache (one sqlite3 connection per thread and file instead of one per call; SQL text unchanged); "
@@ -80,7 +83,7 @@ PRELUDE = ("let U := {| task_of := fun i => nth i [%s] 9; call_of := fun i => nt
 RELEASE_KEY = "mem-release-of-live-invocation-forgets-its-own-waits"
 FINDING_CLASSES = (1, 4)
 NESTED_KEY = "sqlite:nested-write-inside-open-transaction"
-IMPL_ONLY = ("svc", "q_svc")
+IMPL_ONLY = ("svc", "q_svc", "q_wfids", "q_children")
 
 
 # ---------------------------------------------------------------- op -> Gallina
@@ -136,6 +139,8 @@ def coq_op(op) -> str:
         return f"QCount {'None' if op[1] is None else f'(Some {op[1]})'} {_l(op[2])}"
     if k == "q_filter":
         return f"QFilter {_l(op[1])} {_l(op[2])}"
+    if k in ("q_hrange", "q_irange"):
+        return f"{'QHRange' if k == 'q_hrange' else 'QIRange'} {op[1]}%Z {op[2]}%Z"
     if k == "q_blocking":
         return "QBlocking"
     if k in ("q_pending", "q_running", "q_qcount"):
@@ -172,7 +177,7 @@ def coq_expr(case) -> str:
 def norm_model(op, v):
     """model answers are canonical except the active-runner rows (insertion order in the model, any order among equal
     creation times in the contract): sort them here"""
-    if op[0] == "q_active" and v and v[0] == [7]:
+    if op[0] in ("q_active", "q_hrange") and v and v[0] == [7]:
         return [[7]] + sorted(v[1:])
     return v
 
@@ -185,10 +190,11 @@ def _worker_init(scratch):
     from harness.vclock import VirtualClock
     world.quiet()
     clock = VirtualClock(D.T0).install()
+    hclock = D.HistClock(clock).install()
     cache = D.ConnCache().install()
     sub = os.path.join(scratch, f"w{os.getpid()}")
     os.makedirs(sub, exist_ok=True)
-    _W.update(clock=clock, cache=cache, impls={k: D.Impl(k, sub, clock) for k in ("mem", "sqlite")})
+    _W.update(clock=clock, hclock=hclock, cache=cache, impls={k: D.Impl(k, sub, clock, hclock) for k in ("mem", "sqlite")})
 
 
 def run_case_on(kind, case):
@@ -246,6 +252,9 @@ def gen_query(rng, ids):
         return ("q_count", rng.choice([None, 0, 1]), sts)
     if r < 0.85:
         return ("q_filter", rng.sample(ids, min(len(ids), rng.randint(0, 4))) if ids else [], rng.sample(ST, rng.randint(0, 5)))
+    if r < 0.90:
+        a = rng.choice([0, 0, 1, D.PURGE_UNITS, D.PENDING_UNITS])
+        return (rng.choice(["q_hrange", "q_irange"]), a, a + rng.choice([0, 1, D.PENDING_UNITS, 100000]), rng.randint(1, 3))
     if r < 0.95:
         return ("q_blocking", rng.randint(0, 3))
     return ("q_active", rng.choice([None, True, False]))
@@ -477,7 +486,7 @@ def check_case(ctx: Ctx, kind, case, mem, sql, model_val, stats):
         if op[0] in IMPL_ONLY:
             if mem[j] != sql[j] and not done_mem:
                 done_mem = True
-                ctx.violation(f"mem-vs-sqlite:{op[0]}", f"record_atomic_service_execution: in-memory {mem[j]} vs SQLite {sql[j]} after {case[owner[j]]}",
+                ctx.violation(f"mem-vs-sqlite:{op[0]}", f"{op} (compared between the two implementations, no model): in-memory {mem[j]} vs SQLite {sql[j]} after {case[owner[j]]}",
                               {"ops": case[:owner[j] + 1], "probe": list(op), "backend": "mem", "observed": mem[j], "expected": sql[j]})
             continue
         i_v, r_v = norm_model(op, I[j]), norm_model(op, R[j])
@@ -583,6 +592,7 @@ def main(ctx: Ctx) -> int:
     ctx.assumptions += [
         "universes: 6 invocation slots (2 tasks, 5 calls, argument keys a/b/x with values 1/2), runners r1..r3 + the client's own context",
         "time on a 1/64 s grid (exact in binary64, datetime microseconds and SQLite REAL); auto-purge after 225, pending limit 320, runner dead after 960 units",
+        "history entries are stamped with the virtual time + 1 microsecond per state-changing operation since the last tick: equal inside one operation, distinct across operations",
         "pages are compared as their timestamp sequences (order among equal timestamps is open), get_blocking_invocations(n) as 'any n of the candidates'",
         "history entries are written by pynenc's own writer threads; the harness joins them after every operation",
     ]
@@ -615,6 +625,7 @@ def replay(ctx: Ctx, path: str) -> int:
                 print(f"sqlite nested writes inside an open write transaction: {_W['cache'].pop_events()}")
             print(f"{kind:6s} probe {probe!r} -> {im.do(probe)}    (reference model: {rp.get('expected')}; recorded on {rp.get('backend')}: {rp.get('observed')})")
         _W["cache"].uninstall()
+        _W["hclock"].uninstall()
         _W["clock"].uninstall()
     finally:
         world.rm_scratch(scratch)
